@@ -243,10 +243,22 @@ func (e *fenv) run(fn *ssa.Function, args []fval, depth int) ([]fval, error) {
 				*c = v
 			case *ssa.Call:
 				var av []fval
+				lenient := false
+				if callee := x.Common().StaticCallee(); callee != nil {
+					_, lenient = e.extern[callee.String()]
+				}
 				for _, a := range x.Common().Args {
 					v, err := get(a)
 					if err != nil {
-						return nil, err
+						if !lenient {
+							return nil, err
+						}
+						// an argument the native stand-in does not look at (a format string, an empty variadic list)
+						if k, isK := a.(*ssa.Const); isK && k.Value != nil && k.Value.Kind() == constant.String {
+							v = fval{k: fStr, rs: []rune(constant.StringVal(k.Value))}
+						} else {
+							v = fval{}
+						}
 					}
 					av = append(av, v)
 				}
